@@ -9,7 +9,7 @@ Not decided: positivity of the truncated expansion, truncation error sizes.
 """
 import ast
 
-from ..loader import AnalysisError, norm, walk_no_nested, call_name, parents_map
+from ..loader import AnalysisError, norm, walk_no_nested, call_name, parents_map, protocol_body
 from .. import ta
 from ..ta import Expr, Array, Facts, normal, show_normal, a_dot, a_transpose, a_conj
 from ..ta_front import Interp, Obj, Index
@@ -140,6 +140,13 @@ def check(run, prog, tier):
                       "(no representation kept on the propagator between calls)", minimum=2)
     run.rule("C02-F", "pure-dephasing factors are derived from the time step in force (derived-state "
                       "freshness)", minimum=2)
+
+    run.rule("C02-H", "the propagators read the Hamiltonian (and the rotating-wave data derived from it) under "
+                      "internal units", minimum=20)
+    from . import intunits
+    intunits.check_classes(run, prog, "C02-H", [RDM, SV, "quantarhei.qm.propagators.dmevolution.DensityMatrixEvolution",
+                                                 "quantarhei.qm.propagators.statevectorevolution.StateVectorEvolution"], 22,
+                           "the time step is in femtoseconds: the expansion diverges or follows a different generator")
 
     cls = prog.cls(RDM)
     nloops = 0
@@ -452,11 +459,11 @@ def rule_D(run, prog, routines):
              ("quantarhei.qm.propagators.svpropagator.StateVectorPropagator", "self.ham", "self.timeaxis"))
     for q, hexpr, texpr in pairs:
         pc = prog.cls(q)
-        pf = pc.methods["propagate"]
+        pf, pbody = protocol_body(prog, pc, "propagate")
         p0 = pf.node.args.args[1].arg
         ok, why = True, ""
         if absolute:
-            top = [s_ for s_ in pf.node.body if isinstance(s_, ast.If) and norm(s_.test) == hexpr + ".has_rwa"]
+            top = [s_ for s_ in pbody if isinstance(s_, ast.If) and norm(s_.test) == hexpr + ".has_rwa"]
             helper = None
             for s_ in top:
                 for b_ in s_.body:
